@@ -44,6 +44,12 @@ pub struct C15Plan {
     /// padded to a byte boundary.
     #[serde(default)]
     pub stuff_bits: Vec<u8>,
+    /// What the USER does on the stream's reader / decoder between call i and call
+    /// i+1 (all of it legal and without effect on what is decoded): 0 nothing,
+    /// 1 `reader.commit()`, 2 a 16-bit peek inside a look-ahead, 3 `parse_picture`
+    /// inside a look-ahead, 4 `cleanup_buffers()`.
+    #[serde(default)]
+    pub between: Vec<u8>,
 }
 
 fn viol(class: &str, detail: String) -> Option<Violation> {
@@ -114,6 +120,27 @@ pub fn exec_c15(plan: &C15Plan, st: &mut Stats) -> Option<Violation> {
             if *c == i {
                 a.arm(*k, SrcFault::Eintr);
             }
+        }
+        match plan.between.get(i).copied().unwrap_or(0) {
+            1 => {
+                a.reader.commit();
+                st.inc("probe.user_commit_between_calls");
+            }
+            2 => {
+                let _ = guarded(|| a.reader.with_lookahead(|r| r.peek_bits::<u32>(16)));
+                st.inc("probe.user_peek_between_calls");
+            }
+            3 => {
+                let _ = guarded(|| {
+                    let Slot { reader, state, .. } = &mut a;
+                    reader.with_lookahead(|r| state.parse_picture(r, None).map(|_| ()))
+                });
+                st.inc("probe.user_parse_picture_between_calls");
+            }
+            4 => {
+                let _ = a.cleanup();
+            }
+            _ => {}
         }
         let oa = if who(i) == 0 { a.decode() } else { a.decode_with(&mut a2) };
         st.inc("evaluations");
@@ -214,12 +241,24 @@ pub fn gen_c15(rng: &mut Rng, tier: Tier) -> C15Plan {
     }
     let class = if cfg.flavour == 3 { 0 } else { *rng.pick(&[0u8, 0, 3, if tier == Tier::Quick { 0 } else { 1 }]) };
     let (mut w, mut h) = gen_size(rng, class);
+    if w as u32 * h as u32 > 200 * 200 {
+        // streams are about boundaries, not sizes: keep the extreme aspects out
+        w = w.min(200);
+        h = h.min(200);
+    }
     let (mut fl, w2, h2) = flavour_for(rng, &cfg, w, h);
     w = w2;
     h = h2;
     // one stream in 100 is LONG: dozens of pictures and kilobytes through one reader
     let long = rng.chance(1, 100);
-    let n = if long { 20 + rng.usize(60) } else { 1 + rng.usize(6) };
+    // thorough tier, rarely: more than a mebibyte and more than a thousand pictures
+    // through ONE reader
+    let very_long = tier == Tier::Thorough && rng.chance(1, 2500);
+    let n = if very_long { 1000 + rng.usize(300) } else if long { 20 + rng.usize(60) } else { 1 + rng.usize(6) };
+    if very_long {
+        cfg.density = 3;
+        cfg.mb_weights = [1, 3, 1, 1, 3, 1, 1];
+    }
     if long {
         cfg.pei16 = 12;
     }
@@ -290,6 +329,7 @@ pub fn gen_c15(rng: &mut Rng, tier: Tier) -> C15Plan {
         assign,
         max_chunk: *rng.pick(&[0usize, 0, 0, 1, 2, 5]),
         stuff_bits: if rng.chance(1, 3) { (0..n).map(|_| rng.below(9) as u8).collect() } else { vec![] },
+        between: if rng.chance(1, 3) { (0..n).map(|_| *rng.pick(&[0u8, 0, 1, 2, 3, 4])).collect() } else { vec![] },
     }
 }
 
@@ -386,6 +426,9 @@ impl Property for C15 {
             "two_decoders_on_one_reader",
             "bit_contiguous_stream",
             "next_start_code_not_byte_aligned",
+            "user_commit_between_calls",
+            "user_peek_between_calls",
+            "user_parse_picture_between_calls",
         ]
     }
 }
